@@ -230,13 +230,27 @@ Definition parse_dec_body (neg : bool) (s : bytes) : option dec :=
     else None
   end.
 
-Definition parse_dec (s : bytes) : option dec :=
+Definition parse_dec_plain (s : bytes) : option dec :=
   match s with
   | [] => None
   | 43 :: r => match r with [] => None | _ => parse_dec_body false r end
   | 45 :: r => match r with [] => None | _ => parse_dec_body true r end
   | _ => parse_dec_body false s
   end.
+
+(* the package accepts '_' as a digit separator: each one directly after a
+   digit and never last ("1_000", "1_.5", "1e1_0"; not "_1", "1__0", "1_").
+   [strip_us prev s]: the text without separators, [prev] = the previous byte
+   was a digit *)
+Fixpoint strip_us (prev : bool) (s : bytes) : option bytes :=
+  match s with
+  | [] => Some []
+  | 95 :: r => if prev then match r with [] => None | _ => strip_us false r end else None
+  | b :: r => match strip_us (is_digit b) r with Some r' => Some (b :: r') | None => None end
+  end.
+
+Definition parse_dec (s : bytes) : option dec :=
+  match strip_us false s with Some s' => parse_dec_plain s' | None => None end.
 
 (* RFC 8259 number grammar (what encoding/json accepts for json.Number) *)
 Definition json_number_ok (s : bytes) : bool :=
